@@ -921,7 +921,7 @@ class ArgumentParser(ParserDeprecations, ActionsContainer, ArgumentLinking, argp
 
         if fsspec_support:
             try:
-                path_sw = Path(path, mode="sw")
+                path_sw = Path(path, mode="s")  # not "sw": its check opens, i.e. truncates, an fsspec target
             except TypeError:
                 pass
             else:
@@ -929,6 +929,10 @@ class ArgumentParser(ParserDeprecations, ActionsContainer, ArgumentLinking, argp
                     if multifile:
                         raise NotImplementedError(f"multifile=True not supported for fsspec paths: {path}")
                     fsspec = import_fsspec("ArgumentParser.save")
+                    if not overwrite:
+                        fs, fs_path = fsspec.core.url_to_fs(str(path))
+                        if fs.isfile(fs_path):
+                            raise ValueError(f"Refusing to overwrite existing file: {path}")
                     with fsspec.open(path, "w") as f:
                         f.write(self.dump(cfg, **dump_kwargs))  # type: ignore[arg-type]
                     return
